@@ -70,6 +70,8 @@ func NewSignerAndVerifier(cfg Config) (*Signer, *Verifier, error) {
 		}, &Verifier{
 			IrmaConfig: irmaConfig,
 			Templates:  contract.StandardContractTemplates,
+			// only attributes of the production scheme manager are accepted as signer attributes in production (strict) mode
+			strictMode: cfg.Production,
 		}, nil
 }
 
